@@ -22,11 +22,14 @@ from ..core.report import where
 TECHNIQUE = ("finite-domain abstract evaluation of the alias decision over address-difference regions, compared with a "
              "byte-range overlap oracle; control-dependence analysis of the dependence edges; def-use provenance of the "
              "published dependence lists")
-LEVEL_TEXT = ("Decides that two memory/storage accesses whose byte ranges or keys may overlap are always declared dependent "
-              "by are_dependent (all kinds x all address classes x all orderings of constant offsets, enumerated "
-              "completely), that generate_dependences turns every such answer into an ordering edge except in the cases "
-              "listed, and that nothing but a transitive reduction stands between those edges and the specification. "
-              "Load forwarding, dead-store and store-of-load elimination (simplify_memory) are examined by bounded refutation over access sequences of length <= 3 (quick) / 4 (thorough) against a reference memory model; unify_loads_instructions is covered by its window rule only.")
+LEVEL_TEXT = ('Decides that two memory/storage accesses whose byte ranges or keys may overlap are always declared dependent '
+              'by are_dependent (all kinds x all address classes x all orderings of constant offsets, enumerated '
+              'completely), that generate_dependences turns every such answer into an ordering edge except in the cases '
+              'listed, and that nothing but a transitive reduction stands between those edges and the specification. Load '
+              'forwarding, dead-store and store-of-load elimination (simplify_memory) are examined by bounded refutation '
+              'over access sequences of length <= 3 (quick) / 4 (thorough) against a reference memory model; '
+              'unify_loads_instructions is examined the same way on sequences with at least two loads, byte stores included '
+              '(C02.j).')
 EXPLANATION = ("Regions: access kinds {mstore, mstore8, mload, keccak256, sstore, sload}^2 (at least one write) x address "
                "class {constants with every difference d in [-70,70], same symbol, different symbols, symbol vs "
                "constant} x keccak length {0,1,2,31,32,33,64, symbolic}. Premise (checked): in the constant branch the "
